@@ -502,11 +502,15 @@ fn apply_call(env: &mut Env, call: &Call, out: &mut Outcome, dist: &mut Option<&
             }
         }
     }
-    // a silent invocation may refresh caches under data/continuity_streams/ and nothing else
-    if silent_req && !matches!(call, Call::Cap { cp: Cp::EnsureDefault, .. }) {
+    // A call aimed at an id that names no thread (readers and writers alike) may leave caches under
+    // data/continuity_streams/ and nothing else: a file created or changed anywhere else was reached
+    // through the caller's id (`../x`), the same primitive that hits the truth log for `../events`.
+    // (Calls on existing threads are not held to this: C02 speaks about events.jsonl only.)
+    let unknown_target = matches!(call, Call::Cap { th, cp, .. } if *th >= created_ids(&hs).len() && !matches!(cp, Cp::EnsureDefault | Cp::List | Cp::Subscribe));
+    if unknown_target {
         out.oracle_checks += 1;
         if let Some(d) = tree_diff(&tree_before, &tree_snapshot(&env.root)) {
-            out.violations.push((format!("{name}: a read-only / dry-run / no-op invocation {d} outside data/continuity_streams/"), "silent_invocation_wrote_outside_cache_dir".into()));
+            out.violations.push((format!("{name}: a call aimed at an id that names no thread {d} outside data/continuity_streams/"), "thread_id_escapes_cache_dir".into()));
         }
     }
     out.obs.push(parse_log(&after).map(|h| h.len() as u64).unwrap_or(0));
@@ -888,12 +892,13 @@ struct Req {
     uri: String,
     body: Option<String>,
     silent: bool, // must add nothing at all (else: prefix + whole frames)
+    unknown_id: bool,
 }
 
 fn router_requests(known: Option<&String>, full: bool) -> Vec<Req> {
     let mut v = vec![];
-    let get = |uri: String| Req { method: "GET", uri, body: None, silent: true };
-    let post = |uri: String, body: serde_json::Value, silent: bool| Req { method: "POST", uri, body: Some(body.to_string()), silent };
+    let get = |uri: String| Req { method: "GET", uri, body: None, silent: true, unknown_id: false };
+    let post = |uri: String, body: serde_json::Value, silent: bool| Req { method: "POST", uri, body: Some(body.to_string()), silent, unknown_id: false };
     for u in ["/threads", "/tasks", "/config/doctor", "/openapi.json", "/nope"] {
         v.push(get(u.to_string()));
     }
@@ -916,6 +921,7 @@ fn router_requests(known: Option<&String>, full: bool) -> Vec<Req> {
         serde_json::Value::Object(m)
     };
     for (id, is_known) in &ids {
+        let first_of_id = v.len();
         // raw `.` / `..` segments are sent as they are (axum does not normalise them), everything else encoded
         let e = if id == "." || id == ".." { id.clone() } else { pct(id) };
         if e.is_empty() {
@@ -953,7 +959,7 @@ fn router_requests(known: Option<&String>, full: bool) -> Vec<Req> {
         }
         // malformed bodies
         for route in ["compaction-status", "compaction-cut-points", "compaction-auto", "compaction-auto-schedule", "context-selection-status", "provider-cursor-status"] {
-            v.push(Req { method: "POST", uri: format!("/threads/{e}/{route}"), body: Some("{not json".into()), silent: true });
+            v.push(Req { method: "POST", uri: format!("/threads/{e}/{route}"), body: Some("{not json".into()), silent: true, unknown_id: false });
             v.push(post(format!("/threads/{e}/{route}"), json!({"stride_messages": -1, "limit": "x"}), true));
         }
         if !*is_known {
@@ -968,6 +974,9 @@ fn router_requests(known: Option<&String>, full: bool) -> Vec<Req> {
             v.push(post(format!("/sessions/{e}/input"), json!({"input": "x"}), true));
             v.push(post(format!("/sessions/{e}/cancel"), json!({}), true));
             v.push(post(format!("/tasks/{e}/cancel"), json!({}), true));
+            for r in &mut v[first_of_id..] {
+                r.unknown_id = true;
+            }
         }
     }
     v
@@ -1045,8 +1054,10 @@ fn router_cases(a: &Args, res: &mut RunResult, base_id: i64) {
                     } else if rq.silent && after.len() != before.len() {
                         let first = parse_log(&after[before.len()..]).ok().and_then(|f| f.first().map(|h| ETYPES[h.code as usize]));
                         viol.push((format!("{label}: a read-only / dry-run / no-op / failing request appended {} bytes (first frame: {first:?})", after.len() - before.len()), "silent_request_appended".into(), replay));
-                    } else if let Some(d) = tree_diff(&tree_before, &tree_snapshot(&root)) {
-                        viol.push((format!("{label}: the request {d} outside data/continuity_streams/"), "silent_invocation_wrote_outside_cache_dir".into(), replay));
+                    } else if rq.unknown_id {
+                        if let Some(d) = tree_diff(&tree_before, &tree_snapshot(&root)) {
+                            viol.push((format!("{label}: a request aimed at an id that names no thread {d} outside data/continuity_streams/"), "thread_id_escapes_cache_dir".into(), replay));
+                        }
                     }
                     if viol.len() >= 5 {
                         break;
